@@ -212,7 +212,7 @@ func runC17(c *Ctx) {
 	r.Rule("O-1", "flag tables are collision-free for every command of the tree and every Flags().GetXxx(name) in a Run closure resolves to a registered flag of that type on every command the closure runs under")
 	r.Rule("O-2", "between the engine call and the print loops the result slice is only re-sorted with a stable sort on Score descending; every print loop emits on every iteration (no filter)")
 	r.Rule("O-3", "in the json branch the only output is one Encoder.Encode(out) where out receives exactly one append per result; no fmt.Print* in that branch")
-	r.Rule("O-4", "every string constant containing ESC (0x1b) in package cli is an argument of the colour gate, which returns \"\" when no-color is set; no-color is the --no-color flag or NO_COLOR")
+	r.Rule("O-4", "every string constant containing ESC (0x1b) in the shipped packages is an argument of the colour gate of package cli, which returns \"\" when no-color is set; no-color is the --no-color flag or NO_COLOR")
 	r.Rule("O-5", "on every path of the search command through the engine call: exactly one AddEntry(validated query, len(results)) then one Save on the same history; on paths that never reach the engine: none")
 
 	t := cliTree(c)
@@ -1347,19 +1347,30 @@ func c17NoColorValue(v ssa.Value, d int) bool {
 				}
 			}
 		}
-		if len(flagFalse) == 0 || len(envFalse) == 0 {
+		if len(flagFalse) == 0 {
 			return false
 		}
+		envSeen := len(envFalse) > 0
 		for _, ret := range ssau.ReturnsOf(h) {
-			if ssau.IsConstBool(ssau.ResultValue(ret, 0), true) {
+			rv := ssau.ResultValue(ret, 0)
+			if ssau.IsConstBool(rv, true) {
 				continue
 			}
+			// "is NO_COLOR present" handed back as the answer where the flag is unset
+			if e2, isEx := rv.(*ssa.Extract); isEx && e2.Index == 1 {
+				if lc, isC := e2.Tuple.(*ssa.Call); isC && ssau.CallName(lc) == "os.LookupEnv" {
+					if s, _ := ssau.ConstString(lc.Common().Args[0]); s == "NO_COLOR" && !ssau.ReachableAvoidingEdges(h, ret.Block(), flagFalse) {
+						envSeen = true
+						continue
+					}
+				}
+			}
 			// any other answer is given only with the flag unset and NO_COLOR absent
-			if ssau.ReachableAvoidingEdges(h, ret.Block(), flagFalse) || ssau.ReachableAvoidingEdges(h, ret.Block(), envFalse) {
+			if len(envFalse) == 0 || ssau.ReachableAvoidingEdges(h, ret.Block(), flagFalse) || ssau.ReachableAvoidingEdges(h, ret.Block(), envFalse) {
 				return false
 			}
 		}
-		return true
+		return envSeen
 	case *ssa.Phi:
 		flag := false
 		nEnv := 0
@@ -1461,9 +1472,10 @@ func c17Colour(c *Ctx, run *ssa.Function) {
 		for top.Parent() != nil {
 			top = top.Parent()
 		}
-		if top.Pkg != sp {
-			continue
-		}
+		// the command layer prints through the colour gate; the packages below
+		// it cannot see the --no-color flag at all, so nothing they hold may
+		// contain an escape sequence unless the same control applies
+		inCLI := top.Pkg == sp
 		ssau.ForEachInstr(fn, false, func(in ssa.Instruction) {
 			for _, op := range in.Operands(nil) {
 				if op == nil || *op == nil {
@@ -1473,7 +1485,9 @@ func c17Colour(c *Ctx, run *ssa.Function) {
 				if !ok || !strings.Contains(s, "\x1b") {
 					continue
 				}
-				nEsc++
+				if inCLI {
+					nEsc++
+				}
 				key := fmt.Sprintf("%s#esc:%q", load.FuncKey(fn), s)
 				call, isCall := in.(*ssa.Call)
 				var gate *ssa.Function
